@@ -10,6 +10,7 @@ pub struct Report {
     pub cases: usize,
     pub calls: usize,
     pub mismatches: usize,
+    per_case: std::collections::BTreeMap<usize, usize>,
     out: std::io::StdoutLock<'static>,
 }
 
@@ -19,6 +20,7 @@ impl Report {
             cases: 0,
             calls: 0,
             mismatches: 0,
+            per_case: Default::default(),
             out: std::io::stdout().lock(),
         }
     }
@@ -31,7 +33,10 @@ impl Report {
         };
         if &got != want {
             self.mismatches += 1;
-            if self.mismatches <= 50 {
+            let n = self.per_case.entry(case).or_insert(0);
+            *n += 1;
+            // at most two details per case, 400 in total; the per-case counts are always complete
+            if *n <= 2 && self.per_case.len() <= 200 {
                 writeln!(self.out, "{}", json!({"mismatch": {"case": case, "api": api, "got": got, "want": want}})).unwrap();
             }
         }
@@ -40,7 +45,8 @@ impl Report {
         writeln!(
             self.out,
             "{}",
-            json!({"summary": {"cases": self.cases, "calls": self.calls, "mismatches": self.mismatches}})
+            json!({"summary": {"cases": self.cases, "calls": self.calls, "mismatches": self.mismatches,
+                   "per_case": self.per_case.iter().map(|(k, v)| json!([k, v])).collect::<Vec<_>>()}})
         )
         .unwrap();
         0
@@ -50,6 +56,7 @@ impl Report {
 pub fn run(kind: &str, args: &[String]) -> i32 {
     let file = std::fs::File::open(&args[0]).expect("cases file");
     let mut rep = Report::new();
+    let mut queries: Vec<Value> = vec![];
     for (idx, line) in BufReader::new(file).lines().enumerate() {
         let line = line.unwrap();
         if line.trim().is_empty() {
@@ -59,6 +66,7 @@ pub fn run(kind: &str, args: &[String]) -> i32 {
         rep.cases += 1;
         match kind {
             "syntax" => syntax(&mut rep, idx, &case),
+            "retrace" => retrace(&mut rep, idx, &case, &mut queries, args.get(1).map(|s| s.as_str()).unwrap_or("all")),
             "meta" => {
                 let src = enc::from_bytes(&case["src"]);
                 let got = guarded(|| meta_answers(&src));
@@ -107,4 +115,60 @@ pub fn meta_answers(src: &[u8]) -> Value {
             "method_count": enc::dec_usize(s.method_count()),
         }
     })
+}
+
+/// C01..C04, C02: first line {queries: [...]}, then {srcs: [bytes..], wants, wants_noparams}:
+/// every variant of the file, every handle, every query
+fn query_class(q: &Value) -> &'static str {
+    match q["t"].as_str().unwrap() {
+        "frame" => {
+            if q["frame"]["params"].as_array().unwrap().is_empty() {
+                "frame"
+            } else {
+                "params"
+            }
+        }
+        _ => "lookup",
+    }
+}
+
+fn retrace(rep: &mut Report, idx: usize, case: &Value, queries: &mut Vec<Value>, only: &str) {
+    use crate::handles::{parse_query, with_handle, HANDLES};
+    if let Some(qs) = case.get("queries") {
+        *queries = qs.as_array().unwrap().clone();
+        rep.cases -= 1;
+        return;
+    }
+    let qs: Vec<_> = queries.iter().map(parse_query).collect();
+    for (vi, src) in case["srcs"].as_array().unwrap().iter().enumerate() {
+        let src = enc::from_bytes(src);
+        for h in HANDLES {
+            let wants = if *h == "mapper" { &case["wants_noparams"] } else { &case["wants"] };
+            let src2 = src.clone();
+            let qs_ref = &qs;
+            let res = guarded(std::panic::AssertUnwindSafe(move || {
+                with_handle(h, &src2, |handle| {
+                    qs_ref
+                        .iter()
+                        .map(|q| {
+                            let hr = std::panic::AssertUnwindSafe(handle);
+                            guarded(move || hr.answer(q))
+                        })
+                        .collect::<Vec<_>>()
+                })
+            }));
+            let api = format!("{h}/variant{vi}");
+            match res {
+                Ok(Ok(answers)) => {
+                    for (k, a) in answers.into_iter().enumerate() {
+                        if only == "all" || query_class(&queries[k]) == only {
+                            rep.check(idx, &format!("{api}/q{k}"), a, &wants[k]);
+                        }
+                    }
+                }
+                Ok(Err(e)) => rep.check(idx, &api, Err(e), &json!("handle")),
+                Err(p) => rep.check(idx, &api, Err(p), &json!("handle")),
+            }
+        }
+    }
 }
